@@ -42,6 +42,9 @@ def run(ctx):
     V.v6_derived_constructors(ctx)
     V.v7_zeroes(ctx)
     V.v11_provider_results_not_written(ctx)
+    # nothing the counts go through is memoised under less than it depends on
+    from ..engines import forestrules as E
+    E.e10_memo_keyed_by_arguments(ctx)
     G.g1_decompositions(ctx)
     G.g2_no_lhs_labels(ctx)
     G.g3_equivalence_paths(ctx)
@@ -53,5 +56,5 @@ def run(ctx):
     LK.k2_root_identity(ctx, K, modules=("rule_db.base", "rule_db.forget"), floor=1)
     LK.k2_spec_roots(ctx, K, modules=("comb_spec_searcher",))
     for r, n in (("N1", 2), ("N2", 3), ("N3", 3), ("N4", 10), ("N5", 3), ("N6", 5), ("S0", 4), ("S3", 4), ("M6", 2), ("M4", 2),
-                 ("V1", 14), ("V2", 4), ("V3", 9), ("V10", 3), ("V4", 4), ("V6", 8), ("V7", 2), ("V11", 2), ("G1", 3), ("G2", 2), ("G3", 2), ("G4", 4), ("G5", 5), ("G6", 3), ("G7", 8), ("K2", 3)):
+                 ("V1", 14), ("V2", 4), ("V3", 9), ("V10", 3), ("E10", 7), ("V4", 4), ("V6", 8), ("V7", 2), ("V11", 2), ("G1", 3), ("G2", 2), ("G3", 2), ("G4", 4), ("G5", 5), ("G6", 3), ("G7", 8), ("K2", 3)):
         ctx.floor(r, n)
